@@ -249,3 +249,33 @@ end Sig.Search
   let cases := convCases Kind.f32 Kind.u8 1 0 ++ convCases Kind.f32 Kind.u32 1 0
   let (n, w) := firstBad cases (fun (s, d) => convBad .floatAsUnsigned (fun h d s => Gen.FloatAsUnsigned_fn s.kind.fmt d.kind.intTy h d s) (s, d)) (fun (s, d) => s!"src={repr s} dst={repr d}")
   report "SignalGen.Eq.ConvFnF2I" "FloatAsUnsigned_fn" n w
+
+-- ------------------------------------------------------------------------------------------- SignalGen.Eq.ConvFnInt
+namespace Sig.Search
+/-- whole function against the model's skeleton around the regenerated kernel (also at a depth pair with a zero scale) -/
+def convBadG (k : IntTy → IntTy → Nat → Nat → Int → Option Int) (g : IntTy → IntTy → Heap → Buf → Buf → Res (Buf × Int)) : Buf × Buf → Bool :=
+  fun (s, d) =>
+    let dz := decide (s.depth ≥ d.depth) && (Gen.Scale s.kind.intTy (s.depth : Int) (d.depth : Int) == 0)
+    let m : Res Nat := if s.ch = d.ch ∧ min s.len d.len ≠ 0 ∧ dz = true then .panic heap2 .divZero
+      else convert (k s.kind.intTy d.kind.intTy s.depth d.depth) heap2 s d
+    !resEq (g s.kind.intTy d.kind.intTy heap2 d s) (m.bind fun h' n => .ok h' (d, (n : Int)))
+def intCases (ks kd : Kind) : List (Buf × Buf) :=
+  let base := convCases ks kd 0 0 ++ convCases ks kd 1 0
+  base ++ (base.take 600).map fun (s, d) => ({ s with depth := 72 }, { d with depth := 3 })
+end Sig.Search
+#eval do
+  let cases := intCases Kind.i16 Kind.i8 ++ intCases Kind.i8 Kind.i32
+  let (n, w) := firstBad cases (convBadG Gen.SignedAsSigned_k Gen.SignedAsSigned_fn) (fun (s, d) => s!"src={repr s} dst={repr d}")
+  report "SignalGen.Eq.ConvFnInt" "SignedAsSigned_fn" n w
+#eval do
+  let cases := intCases Kind.i16 Kind.u8 ++ intCases Kind.i8 Kind.u32
+  let (n, w) := firstBad cases (convBadG Gen.SignedAsUnsigned_k Gen.SignedAsUnsigned_fn) (fun (s, d) => s!"src={repr s} dst={repr d}")
+  report "SignalGen.Eq.ConvFnInt" "SignedAsUnsigned_fn" n w
+#eval do
+  let cases := intCases Kind.u16 Kind.i8 ++ intCases Kind.u8 Kind.i32
+  let (n, w) := firstBad cases (convBadG Gen.UnsignedAsSigned_k Gen.UnsignedAsSigned_fn) (fun (s, d) => s!"src={repr s} dst={repr d}")
+  report "SignalGen.Eq.ConvFnInt" "UnsignedAsSigned_fn" n w
+#eval do
+  let cases := intCases Kind.u16 Kind.u8 ++ intCases Kind.u8 Kind.u32
+  let (n, w) := firstBad cases (convBadG Gen.UnsignedAsUnsigned_k Gen.UnsignedAsUnsigned_fn) (fun (s, d) => s!"src={repr s} dst={repr d}")
+  report "SignalGen.Eq.ConvFnInt" "UnsignedAsUnsigned_fn" n w
